@@ -51,6 +51,7 @@ static void c03_run(void) {
 	g.inactive_pct = 20;
 	g.opmask |= (1u << OP_APPLY) | (1u << OP_BARRIER_AAW);
 	g.min_clients = 2; g.max_clients = 4; g.max_ops = 8;
+	g.retarget = 1;
 	qprog_run(&g);
 }
 const prop_def prop_C03 = { "C03", NULL, c03_run, qprog_counter_names,
